@@ -287,6 +287,10 @@ Lemma resolve1_spec {A} (s c : option A) :
   (forall x, c = Some x -> resolve1 s c = Some x) /\ (c = None -> resolve1 s c = s).
 Proof. split; [intros x ->; reflexivity | intros ->; reflexivity]. Qed.
 
+Lemma resolve1_falsy (A : Type) (falsy : A) (s : option A) :
+  resolve1 s (Some falsy) = Some falsy /\ resolve1 s None = s.
+Proof. split; reflexivity. Qed.
+
 Definition orelse {A} (c s : option A) : option A := match c with Some x => Some x | None => s end.
 
 Lemma resolve_kwargs_spec st sd sm ct cd cm :
